@@ -4,10 +4,14 @@
   exact: `copyInto`, `cloneRange`, `fsClone`, `FSeg.writeInto`, `nullWriteInto`.
 
   The uint64 arithmetic of the clone paths is `Desync.Gen.fsClone_*`, `fsWrite_*`, `nullClone_*`
-  (regenerated from the Go source).  `fsClone_eq_N`, `FSeg.writeInto_eq_N`, `nullCloneLoop_eq_N`
-  and `nullWriteInto_eq_N` unfold these definitions and show that for sizes below 2^62 nothing
-  wraps, so that the operations equal the versions over `Nat` (`fsCloneN`, `nullWriteIntoN`) about
-  which everything else is proved.
+  (regenerated from the Go source).  `fsClone_eq_N`, `fsCloneHeadTail_eq_N`, `FSeg.writeInto_eq_N`,
+  `nullCloneLoop_eq_N` and `nullWriteInto_eq_N` unfold these definitions and show that for sizes
+  below 2^62 nothing wraps, so that the operations equal the versions over `Nat` (`fsCloneN`,
+  `fsCloneHeadTailN`, `fsWriteCloneN`, `nullWriteIntoN`) about which everything else is proved.
+
+  A clone the file system refuses is followed by a plain copy of the whole range
+  (`fsWriteCloneN`): still confined, and `WriteInto` can only fail in its size check
+  (`FSeg.writeInto_never_errs_after_size_check`).
 -/
 import Desync.Proofs.AsmFile
 
@@ -420,6 +424,221 @@ theorem fsCloneN_exact (ovl : Bytes → Nat → Nat → Nat → Bytes) (fs : FS)
           exact R1.2 i hi
     · rw [X1.2.1, X2.2.1]; omega
 
+/-! ## what a refused clone leaves behind, and the copy that follows it -/
+
+/-- `fsCloneHeadTail` with the arithmetic over `Nat` -/
+def fsCloneHeadTailN (ovl : Bytes → Nat → Nat → Nat → Bytes) (fs : FS) (src : Src) (so len dO bs : Nat) :
+    FS × Bool :=
+  let sas := (so / bs + 1) * bs
+  let sae := (so + len) / bs * bs
+  let das := (dO / bs + 1) * bs
+  let r1 := copyInto ovl fs src so (sas - so) dO
+  let r2 := copyInto ovl r1.1 src sae (so + len - sae) (das + (sae - sas))
+  (r2.1, r1.2.2 || r2.2.2)
+
+/-- below 2^62 nothing in the head and tail copies wraps, provided the guard
+    `srcAlignEnd <= srcAlignStart` of `fileSeedSegment.clone` is false (unfolds `Gen.fsClone_*`) -/
+theorem fsCloneHeadTail_eq_N (ovl : Bytes → Nat → Nat → Nat → Bytes) (fs : FS) (src : Src)
+    {so len dO bs : Nat}
+    (hso : Small so) (hlen : Small len) (hdO : Small dO) (hbs : Small bs) (hpos : 0 < bs)
+    (hg : ¬ (so + len) / bs * bs ≤ (so / bs + 1) * bs) :
+    fsCloneHeadTail ovl fs src so len dO bs = fsCloneHeadTailN ovl fs src so len dO bs := by
+  have e1 := ac_alignUp_toNat hso hbs hpos
+  have e2 := ac_alignDown_toNat hso hlen hbs
+  have e3 := ac_alignUp_toNat hdO hbs hpos
+  have n1 := ac_alignUp_eq so bs hpos
+  have n2 := ac_alignDown_eq (so + len) bs
+  have n3 := ac_alignUp_eq dO bs hpos
+  have m1 := Nat.mod_lt so hpos
+  have m2 := Nat.mod_lt (so + len) hpos
+  have m3 := Nat.mod_lt dO hpos
+  have hso' := ac_u_small hso
+  have hlen' := ac_u_small hlen
+  have hdO' := ac_u_small hdO
+  unfold Small at hso hlen hdO hbs
+  have hle : ((u so / u bs) + 1) * u bs ≤ ((u so + u len) / u bs) * u bs := by
+    rw [UInt64.le_iff_toNat_le, e1, e2]; omega
+  have hle2 : u so ≤ ((u so / u bs) + 1) * u bs := by
+    rw [UInt64.le_iff_toNat_le, e1, hso']; omega
+  have hsl : (u so + u len).toNat = so + len := by
+    rw [UInt64.toNat_add, hso', hlen']; exact Nat.mod_eq_of_lt (by omega)
+  have hle3 : ((u so + u len) / u bs) * u bs ≤ u so + u len := by
+    rw [UInt64.le_iff_toNat_le, e2, hsl]; omega
+  have eal : (((u so + u len) / u bs) * u bs - ((u so / u bs) + 1) * u bs).toNat
+      = (so + len) / bs * bs - (so / bs + 1) * bs := by
+    rw [UInt64.toNat_sub_of_le _ _ hle, e1, e2]
+  have edae : ((u dO / u bs + 1) * u bs
+        + (((u so + u len) / u bs) * u bs - ((u so / u bs) + 1) * u bs)).toNat
+      = (dO / bs + 1) * bs + ((so + len) / bs * bs - (so / bs + 1) * bs) := by
+    rw [UInt64.toNat_add, eal, e3]; exact Nat.mod_eq_of_lt (by omega)
+  unfold fsCloneHeadTail fsCloneHeadTailN
+  simp only [Gen.fsClone_srcAlignStart, Gen.fsClone_srcAlignEnd,
+    Gen.fsClone_dstAlignStart, Gen.fsClone_alignLength,
+    Gen.fsClone_dstAlignEnd, Gen.fsClone_headCopy, Gen.fsClone_tailCopy,
+    hso', hdO', edae, e1, e2, UInt64.toNat_sub_of_le _ _ hle2,
+    UInt64.toNat_sub_of_le _ _ hle3, hsl]
+
+/-- `fileSeedSegment.clone` over `Nat` only fails behind its guard, in `CloneRange` -/
+theorem fsCloneN_err_guard {ovl : Bytes → Nat → Nat → Nat → Bytes} {fs : FS} {src : Src}
+    {so len dO bs : Nat} (h : fsCloneN ovl fs src so len dO bs = .err) :
+    ¬ (so + len) / bs * bs ≤ (so / bs + 1) * bs := by
+  intro hg
+  unfold fsCloneN at h
+  simp only [hg, if_true] at h
+  exact WRes.noConfusion h
+
+/-- the head and tail copies of `fileSeedSegment.clone` stay inside the destination range -/
+theorem fsCloneHeadTailN_confined (ovl : Bytes → Nat → Nat → Nat → Bytes) (fs : FS) (src : Src)
+    {so len dO bs : Nat} (hpos : 0 < bs) (hal : so % bs = dO % bs)
+    (hg : ¬ (so + len) / bs * bs ≤ (so / bs + 1) * bs)
+    (hd : dO + len ≤ fs.target.length) :
+    (fsCloneHeadTailN ovl fs src so len dO bs).1.seeds = fs.seeds ∧
+    AgreeOutside fs.target (fsCloneHeadTailN ovl fs src so len dO bs).1.target dO (dO + len) := by
+  have n1 := ac_alignUp_eq so bs hpos
+  have n2 := ac_alignDown_eq (so + len) bs
+  have n3 := ac_alignUp_eq dO bs hpos
+  have m1 := Nat.mod_lt so hpos
+  have m2 := Nat.mod_lt (so + len) hpos
+  have m3 := Nat.mod_lt dO hpos
+  unfold fsCloneHeadTailN
+  simp only []
+  generalize (so / bs + 1) * bs = sas at hg n1 ⊢
+  generalize (so + len) / bs * bs = sae at hg n2 ⊢
+  generalize (dO / bs + 1) * bs = das at n3 ⊢
+  have A1 := copyInto_agree ovl fs src so (sas - so) dO (by omega)
+  have S1 := copyInto_seeds ovl fs src so (sas - so) dO
+  generalize copyInto ovl fs src so (sas - so) dO = r1 at A1 S1 ⊢
+  have L1 := A1.1
+  have A2 := copyInto_agree ovl r1.1 src sae (so + len - sae) (das + (sae - sas)) (by omega)
+  have S2 := copyInto_seeds ovl r1.1 src sae (so + len - sae) (das + (sae - sas))
+  generalize copyInto ovl r1.1 src sae (so + len - sae) (das + (sae - sas)) = r2 at A2 S2 ⊢
+  refine ⟨S2.trans S1, ?_⟩
+  refine af_agree_trans (af_agree_mono A1 (Nat.le_refl _) (by omega)) ?_
+  exact af_agree_mono A2 (by omega) (by omega)
+
+/-- the clone branch of `fileSeedSegment.WriteInto` over `Nat`: `clone`, and when `CloneRange`
+    refuses, a plain copy of the whole range over what the head and tail copies left behind -/
+def fsWriteCloneN (ovl : Bytes → Nat → Nat → Nat → Bytes) (fs : FS) (src : Src) (so len dO bs : Nat) : WRes :=
+  match fsCloneN ovl fs src so len dO bs with
+  | .err =>
+    let ht := fsCloneHeadTailN ovl fs src so len dO bs
+    let r := copyInto ovl ht.1 src so len dO
+    .ok r.1 r.2.1 0 (ht.2 || r.2.2)
+  | r => r
+
+theorem fsWriteCloneN_of_ok {ovl : Bytes → Nat → Nat → Nat → Bytes} {fs fs' : FS} {src : Src}
+    {so len dO bs c cl : Nat} {fz : Bool} (h : fsCloneN ovl fs src so len dO bs = .ok fs' c cl fz) :
+    fsWriteCloneN ovl fs src so len dO bs = .ok fs' c cl fz := by
+  unfold fsWriteCloneN
+  rw [h]
+
+theorem fsWriteCloneN_of_err {ovl : Bytes → Nat → Nat → Nat → Bytes} {fs : FS} {src : Src}
+    {so len dO bs : Nat} (h : fsCloneN ovl fs src so len dO bs = .err) :
+    fsWriteCloneN ovl fs src so len dO bs =
+      .ok (copyInto ovl (fsCloneHeadTailN ovl fs src so len dO bs).1 src so len dO).1
+        (copyInto ovl (fsCloneHeadTailN ovl fs src so len dO bs).1 src so len dO).2.1 0
+        ((fsCloneHeadTailN ovl fs src so len dO bs).2 ||
+          (copyInto ovl (fsCloneHeadTailN ovl fs src so len dO bs).1 src so len dO).2.2) := by
+  unfold fsWriteCloneN
+  rw [h]
+
+/-- after the repair the clone branch cannot fail -/
+theorem fsWriteCloneN_ne_err (ovl : Bytes → Nat → Nat → Nat → Bytes) (fs : FS) (src : Src)
+    (so len dO bs : Nat) : fsWriteCloneN ovl fs src so len dO bs ≠ .err := by
+  cases h : fsCloneN ovl fs src so len dO bs with
+  | err => rw [fsWriteCloneN_of_err h]; exact WRes.noConfusion
+  | ok fs' c cl fz => rw [fsWriteCloneN_of_ok h]; exact WRes.noConfusion
+
+/-- the clone branch is confined to the destination range, whether `CloneRange` accepts or not -/
+theorem fsWriteCloneN_confined {ovl : Bytes → Nat → Nat → Nat → Bytes} {fs fs' : FS} {src : Src}
+    {so len dO bs c cl : Nat} {fz : Bool} (hpos : 0 < bs) (hal : so % bs = dO % bs)
+    (hd : dO + len ≤ fs.target.length) (h : fsWriteCloneN ovl fs src so len dO bs = .ok fs' c cl fz) :
+    fs'.seeds = fs.seeds ∧ AgreeOutside fs.target fs'.target dO (dO + len) := by
+  cases hc : fsCloneN ovl fs src so len dO bs with
+  | ok fs'' c' cl' fz' =>
+    rw [fsWriteCloneN_of_ok hc] at h
+    rw [h] at hc
+    exact fsCloneN_confined hpos hal hd hc
+  | err =>
+    rw [fsWriteCloneN_of_err hc] at h
+    obtain ⟨S, A⟩ := fsCloneHeadTailN_confined ovl fs src hpos hal (fsCloneN_err_guard hc) hd
+    generalize (fsCloneHeadTailN ovl fs src so len dO bs) = ht at h S A
+    injection h with h1 h2 h3 h4
+    subst h1
+    have L := A.1
+    refine ⟨(copyInto_seeds ..).trans S, ?_⟩
+    exact af_agree_trans A (copyInto_agree ovl ht.1 src so len dO (by omega))
+
+/-- when the source range is readable and is not a range of the target overlapping the destination
+    the clone is not refused, and the clone branch is exact -/
+theorem fsWriteCloneN_exact (ovl : Bytes → Nat → Nat → Nat → Bytes) (fs : FS) (src : Src)
+    {so len dO bs : Nat} (hpos : 0 < bs) (hal : so % bs = dO % bs)
+    (hsrc : src ≠ .target ∨ so + len ≤ dO ∨ dO + len ≤ so)
+    (hs : so + len ≤ (fs.read src).length) (hd : dO + len ≤ fs.target.length) :
+    ∃ fs' c cl, fsWriteCloneN ovl fs src so len dO bs = .ok fs' c cl false ∧
+      readUpTo fs'.target dO len = readUpTo (fs.read src) so len ∧ c + cl = len := by
+  obtain ⟨fs', c, cl, e, h1, h2⟩ := fsCloneN_exact ovl fs src hpos hal hsrc hs hd
+  exact ⟨fs', c, cl, fsWriteCloneN_of_ok e, h1, h2⟩
+
+/-- a refused clone in the situation of the exactness theorems (which cannot happen with the
+    model's `cloneRange`, see `fsCloneN_exact`, but can with a file system that refuses clones for
+    reasons of its own): the head and tail copies do not touch the source range, the copy of the
+    whole range that follows delivers exactly the source bytes, nothing is counted as cloned and no
+    overlapping copy is involved -/
+theorem fsCloneFallbackN_exact (ovl : Bytes → Nat → Nat → Nat → Bytes) (fs : FS) (src : Src)
+    {so len dO bs : Nat} (hpos : 0 < bs) (hal : so % bs = dO % bs)
+    (hg : ¬ (so + len) / bs * bs ≤ (so / bs + 1) * bs)
+    (hsrc : src ≠ .target ∨ so + len ≤ dO ∨ dO + len ≤ so)
+    (hs : so + len ≤ (fs.read src).length) (hd : dO + len ≤ fs.target.length) :
+    readUpTo (copyInto ovl (fsCloneHeadTailN ovl fs src so len dO bs).1 src so len dO).1.target dO len
+        = readUpTo (fs.read src) so len ∧
+      (copyInto ovl (fsCloneHeadTailN ovl fs src so len dO bs).1 src so len dO).2.1 + 0 = len ∧
+      ((fsCloneHeadTailN ovl fs src so len dO bs).2 ||
+        (copyInto ovl (fsCloneHeadTailN ovl fs src so len dO bs).1 src so len dO).2.2) = false := by
+  obtain ⟨S, A⟩ := fsCloneHeadTailN_confined ovl fs src hpos hal hg hd
+  have R := ac_read_stable S A hsrc
+  have hfz : (fsCloneHeadTailN ovl fs src so len dO bs).2 = false := by
+    have n1 := ac_alignUp_eq so bs hpos
+    have n2 := ac_alignDown_eq (so + len) bs
+    have n3 := ac_alignUp_eq dO bs hpos
+    have m1 := Nat.mod_lt so hpos
+    have m2 := Nat.mod_lt (so + len) hpos
+    have m3 := Nat.mod_lt dO hpos
+    unfold fsCloneHeadTailN
+    simp only []
+    generalize (so / bs + 1) * bs = sas at hg n1 ⊢
+    generalize (so + len) / bs * bs = sae at hg n2 ⊢
+    generalize (dO / bs + 1) * bs = das at n3 ⊢
+    have hsrc1 : src ≠ .target ∨ so + (sas - so) ≤ dO ∨ dO + (sas - so) ≤ so := by
+      rcases hsrc with h | h
+      · exact Or.inl h
+      · exact Or.inr (by omega)
+    have hsrc2 : src ≠ .target ∨ sae + (so + len - sae) ≤ das + (sae - sas) ∨
+        das + (sae - sas) + (so + len - sae) ≤ sae := by
+      rcases hsrc with h | h
+      · exact Or.inl h
+      · exact Or.inr (by omega)
+    have X1 := copyInto_exact ovl fs src so (sas - so) dO hsrc1 (by omega) (by omega)
+    have A1 := copyInto_agree ovl fs src so (sas - so) dO (by omega)
+    have S1 := copyInto_seeds ovl fs src so (sas - so) dO
+    generalize copyInto ovl fs src so (sas - so) dO = r1 at X1 A1 S1 ⊢
+    have L1 := A1.1
+    have A1' : AgreeOutside fs.target r1.1.target dO (dO + len) :=
+      af_agree_mono A1 (Nat.le_refl _) (by omega)
+    have R1 := ac_read_stable S1 A1' hsrc
+    have X2 := copyInto_exact ovl r1.1 src sae (so + len - sae) (das + (sae - sas)) hsrc2
+      (by omega) (by omega)
+    rw [X1.2.2, X2.2.2]
+    rfl
+  generalize (fsCloneHeadTailN ovl fs src so len dO bs) = ht at S A R hfz ⊢
+  have L := A.1
+  obtain ⟨e1, e2, e3⟩ := copyInto_exact ovl ht.1 src so len dO hsrc (by omega) (by omega)
+  refine ⟨?_, by omega, by rw [hfz, e3]; rfl⟩
+  rw [e1]
+  apply af_readUpTo_ext
+  intro i hi
+  exact R.2 i hi
+
 /-! ## fileSeedSegment.WriteInto -/
 
 /-- below 2^62 nothing in `fileSeedSegment.WriteInto` wraps (unfolds `Gen.fsWrite_*`) -/
@@ -432,11 +651,21 @@ theorem FSeg.writeInto_eq_N (ovl : Bytes → Nat → Nat → Nat → Bytes) (s :
         .ok (copyInto ovl fs s.src s.srcStart length offset).1
           (copyInto ovl fs s.src s.srcStart length offset).2.1 0
           (copyInto ovl fs s.src s.srcStart length offset).2.2
-      else fsCloneN ovl fs s.src s.srcStart length offset bs := by
+      else fsWriteCloneN ovl fs s.src s.srcStart length offset bs := by
   unfold FSeg.writeInto
   simp only [Gen.fsWrite_wrongSize, Gen.fsWrite_useCopy, Gen.fsWrite_copyArgs, Gen.fsWrite_cloneArgs,
+    Gen.fsWrite_cloneFallbackArgs,
     decide_eq_true_eq, Bool.or_eq_true, Bool.not_eq_true', ac_u_small hst, ac_u_small hoff,
     ac_u_small hlen, ne_eq, ac_u_mod_inj hst hoff hbs, fsClone_eq_N ovl fs s.src hst hlen hoff hbs hpos]
+  split
+  · rfl
+  · split
+    · rfl
+    · cases hc : fsCloneN ovl fs s.src s.srcStart length offset bs with
+      | ok fs' c cl fz => rw [fsWriteCloneN_of_ok hc]
+      | err =>
+        rw [fsWriteCloneN_of_err hc,
+          fsCloneHeadTail_eq_N ovl fs s.src hst hlen hoff hbs hpos (fsCloneN_err_guard hc)]
 
 /-- `fileSeedSegment.WriteInto` touches nothing but the destination range of the target -/
 theorem FSeg.writeInto_confined {ovl : Bytes → Nat → Nat → Nat → Bytes} {s : FSeg} {fs fs' : FS}
@@ -457,7 +686,7 @@ theorem FSeg.writeInto_confined {ovl : Bytes → Nat → Nat → Nat → Bytes} 
         by_cases hne : s.srcStart % bs = offset % bs
         · exact hne
         · exact absurd (Or.inr hne) hc
-      exact fsCloneN_confined hpos hal hd h
+      exact fsWriteCloneN_confined hpos hal hd h
 
 /-- `fileSeedSegment.WriteInto` succeeds and is exact when the segment has the requested length,
     its source range is readable, and it is not a range of the target overlapping the destination -/
@@ -485,7 +714,7 @@ theorem FSeg.writeInto_exact (ovl : Bytes → Nat → Nat → Nat → Bytes) (s 
       by_cases hne : s.srcStart % bs = offset % bs
       · exact hne
       · exact absurd (Or.inr hne) hc
-    exact fsCloneN_exact ovl fs s.src hpos hal hsrc hs hd
+    exact fsWriteCloneN_exact ovl fs s.src hpos hal hsrc hs hd
 
 /-- a segment of a seed file: the write succeeds and the destination holds the seed's bytes -/
 theorem FSeg.writeInto_exact_seed (ovl : Bytes → Nat → Nat → Nat → Bytes) (s : FSeg) (fs : FS)
@@ -516,6 +745,30 @@ theorem FSeg.writeInto_exact_self (ovl : Bytes → Nat → Nat → Nat → Bytes
     (by rw [hk]; exact hs) hsz hd
   rw [hk] at this
   exact this
+
+/-- with the copy after a refused clone, the size check is the only thing left that can make
+    `fileSeedSegment.WriteInto` fail in the model -/
+theorem FSeg.writeInto_never_errs_after_size_check (ovl : Bytes → Nat → Nat → Nat → Bytes) (s : FSeg)
+    (fs : FS) {offset length bs : Nat}
+    (hst : Small s.srcStart) (hoff : Small offset) (hlen : Small length) (hbs : Small bs)
+    (hpos : 0 < bs) (hsz : u length = u s.size) :
+    s.writeInto ovl fs offset length bs ≠ .err := by
+  rw [FSeg.writeInto_eq_N ovl s fs hst hoff hlen hbs hpos, if_neg (fun h => h hsz)]
+  split
+  · exact WRes.noConfusion
+  · exact fsWriteCloneN_ne_err ovl fs s.src s.srcStart length offset bs
+
+/-- and conversely it does fail when the size check does -/
+theorem FSeg.writeInto_err_iff_wrong_size (ovl : Bytes → Nat → Nat → Nat → Bytes) (s : FSeg)
+    (fs : FS) {offset length bs : Nat}
+    (hst : Small s.srcStart) (hoff : Small offset) (hlen : Small length) (hbs : Small bs)
+    (hpos : 0 < bs) :
+    s.writeInto ovl fs offset length bs = .err ↔ u length ≠ u s.size := by
+  constructor
+  · intro h hsz
+    exact FSeg.writeInto_never_errs_after_size_check ovl s fs hst hoff hlen hbs hpos hsz h
+  · intro h
+    rw [FSeg.writeInto_eq_N ovl s fs hst hoff hlen hbs hpos, if_pos h]
 
 /-! ## nullChunkSection.WriteInto -/
 
